@@ -184,6 +184,7 @@ struct TraceEv {
 }
 
 pub struct Inner {
+    graces: u32,
     th: Vec<Th>,
     cur: usize,
     pub now: u64,
@@ -311,6 +312,40 @@ impl Inner {
                 }
             }
         }
+    }
+
+    /// give the kernel `ms` of real time; true if an idle event loop became ready meanwhile
+    fn grace_poll(&mut self, ms: i32) -> bool {
+        if !self.cfg.io_always {
+            return false;
+        }
+        let fds: Vec<(usize, i32)> = self
+            .th
+            .iter()
+            .enumerate()
+            .filter_map(|(i, t)| match t.st {
+                St::Blocked(Why::Epoll(fd)) => Some((i, fd)),
+                _ => None,
+            })
+            .collect();
+        if fds.is_empty() {
+            return false;
+        }
+        let mut pfds: Vec<libc::pollfd> = fds.iter().map(|f| libc::pollfd { fd: f.1, events: libc::POLLIN, revents: 0 }).collect();
+        let r = unsafe { libc::poll(pfds.as_mut_ptr(), pfds.len() as libc::nfds_t, ms) };
+        let mut any = false;
+        if r > 0 {
+            for (k, p) in pfds.iter().enumerate() {
+                if p.revents & libc::POLLIN != 0 {
+                    self.make_runnable(fds[k].0, true);
+                    any = true;
+                }
+            }
+        }
+        if any {
+            self.kernel_async += 1;
+        }
+        any
     }
 
     /// jump the clock to the next deadline; false if nobody has one
@@ -772,6 +807,10 @@ impl Engine {
                     if !inner.advance_time() {
                         let msg = format!("deadlock: every thread is blocked with no deadline; {}", inner.thread_dump());
                         inner.finish_now("hung", &msg);
+                    }
+                    if inner.now > inner.cfg.vt_limit && inner.graces < 3 && inner.grace_poll(300) {
+                        inner.graces += 1;
+                        inner.cfg.vt_limit = inner.now + 1_000_000_000;
                     }
                     if inner.now > inner.cfg.vt_limit {
                         let msg = format!(
@@ -1253,6 +1292,7 @@ pub fn init(cfg: Cfg) {
             armed_stall: None,
     };
     let inner = Inner {
+        graces: 0,
         th: vec![main],
         cur: 0,
         now: 0,
@@ -1580,6 +1620,18 @@ pub fn disarm_stall() {
         if me != usize::MAX {
             i.th[me].armed_stall = None;
         }
+    }
+}
+
+/// The real kernel is the one component the engine does not own. Before an io scenario decides
+/// that something hangs it gives the kernel `ms` of REAL time: true if an idle event loop's epoll
+/// fd turned readable meanwhile (the kernel was late: softirq work under CPU load), in which case
+/// the caller extends its deadline. Counted as `kernel_async`, never an alarm.
+pub fn kernel_grace(ms: i32) -> bool {
+    let mut g = ENGINE.lock();
+    match g.as_mut() {
+        Some(i) => i.grace_poll(ms),
+        None => false,
     }
 }
 
